@@ -13,7 +13,7 @@ use crate::platform::{
     IoUringParamFlags, IoUringParams, IoUringSubmissionQueueEntry, MapAdditionalFlags,
     MapRequiredFlag, MemoryProtection, UringCompletionQueue, UringSubmissionQueue,
 };
-use crate::unistd::mmap;
+use crate::unistd::{mmap, munmap};
 use crate::{Error, Result};
 
 #[cfg(test)]
@@ -59,11 +59,18 @@ pub fn setup_io_uring(
             MapAdditionalFlags::MAP_POPULATE,
             Some(fd),
             i64::from(IORING_OFF_SQ_RING),
-        )?;
+        );
+        let sq_ring_ptr = match sq_ring_ptr {
+            Ok(ptr) => ptr,
+            Err(e) => {
+                let _ = crate::unistd::close(fd);
+                return Err(e);
+            }
+        };
         let cq_ring_ptr =
             if params.0.features & IoUringFeatFlags::IORING_FEAT_SINGLE_MMAP.bits() == 0 {
                 // cq offset from https://kernel.dk/io_uring.pdf
-                mmap(
+                let cq_ring_ptr = mmap(
                     None,
                     // Safety: The kernel rejects 0 entries as `EINVAL` and the size isn't 0
                     NonZeroUsize::new_unchecked(cq_ring_sz),
@@ -72,7 +79,15 @@ pub fn setup_io_uring(
                     MapAdditionalFlags::MAP_POPULATE,
                     Some(fd),
                     i64::from(IORING_OFF_CQ_RING),
-                )?
+                );
+                match cq_ring_ptr {
+                    Ok(ptr) => ptr,
+                    Err(e) => {
+                        let _ = munmap(sq_ring_ptr, NonZeroUsize::new_unchecked(sq_ring_sz));
+                        let _ = crate::unistd::close(fd);
+                        return Err(e);
+                    }
+                }
             } else {
                 sq_ring_ptr
             };
@@ -96,7 +111,18 @@ pub fn setup_io_uring(
             MapAdditionalFlags::MAP_POPULATE,
             Some(fd),
             i64::from(IORING_OFF_SQES),
-        )?;
+        );
+        let sqes = match sqes {
+            Ok(ptr) => ptr,
+            Err(e) => {
+                if cq_ring_ptr != sq_ring_ptr {
+                    let _ = munmap(cq_ring_ptr, NonZeroUsize::new_unchecked(cq_ring_sz));
+                }
+                let _ = munmap(sq_ring_ptr, NonZeroUsize::new_unchecked(sq_ring_sz));
+                let _ = crate::unistd::close(fd);
+                return Err(e);
+            }
+        };
         let sqes = NonNull::new_unchecked(sqes as *mut IoUringSubmissionQueueEntry);
         let cq_khead = into_non_null(cq_ring_ptr, params.0.cq_off.head as usize)?;
         let cq_ktail = into_non_null(cq_ring_ptr, params.0.cq_off.tail as usize)?;
